@@ -144,6 +144,45 @@ def rows_for(E, fa, S, wparam):
             if tc["writer"] is not None and fmt.writer_root(E, fa, tc["writer"]) == wparam]
 
 
+def logical_rows(E, fa, S, wparam):
+    """Merge consecutive text calls on one writer into logical rows: a row ends with the call whose
+    last literal ends in a newline; it consists of that call plus every earlier call on the same
+    writer that dominates it and is not separated from it by another dominating row end.
+    Returns [{'b': block of the terminating call, 'pieces': [...]}]."""
+    calls = rows_for(E, fa, S, wparam)
+    dom = fa.dominators()
+
+    def ends_row(tc):
+        l = [p for p in tc["pieces"] if p[0] == "lit"]
+        return bool(tc["pieces"]) and tc["pieces"][-1][0] == "lit" and tc["pieces"][-1][1].endswith("\n")
+
+    enders = [tc for tc in calls if ends_row(tc)]
+    rows = []
+    for w in enders:
+        members = []
+        for c in calls:
+            if c is w or not fa.dominates(c["b"], w["b"]) or c["b"] == w["b"]:
+                continue
+            if ends_row(c):
+                continue
+            # separated by another row end that lies between c and w?
+            sep = any(t is not w and fa.dominates(c["b"], t["b"]) and fa.dominates(t["b"], w["b"])
+                      and t["b"] != w["b"] for t in enders)
+            if not sep:
+                members.append(c)
+        members.sort(key=lambda x: len(dom[x["b"]]))
+        pieces = []
+        for m in members + [w]:
+            for p in m["pieces"]:
+                if p[0] == "lit" and pieces and pieces[-1][0] == "lit":
+                    pieces[-1] = ("lit", pieces[-1][1] + p[1])
+                else:
+                    pieces.append(p)
+        rows.append({"b": w["b"], "pieces": pieces, "kind": "row"})
+    rows.sort(key=lambda x: x["b"])
+    return rows
+
+
 def lits(tc):
     return [p[1] for p in tc["pieces"] if p[0] == "lit"]
 
@@ -226,35 +265,36 @@ def lexicon_rows(ctx):
            "parse_csv stores CSV column 1, 2, 3 into left_id, right_id, word_cost" if ok else
            "parse_csv hands columns %s to WordParam::new(left_id, right_id, word_cost): ids or "
            "cost are read from the wrong column" % got)
-    # writers
+    # writers (logical rows: the surface cell and the remaining columns may be written by one or
+    # several calls)
     for wname, label, first in (("lexicon_wtr", "lex.csv", "csvcell"), ("unk_handler_wtr", "unk.def", "plain"),
                                 ("user_lexicon_wtr", "user.csv", "csvcell")):
         wi = param_index(f, wname)
-        rows = rows_for(E, fa, S, wi)
-        fm = [tc for tc in rows if tc["kind"] == "write_fmt"]
-        cells = [tc for tc in rows if tc["kind"] == "csvcell"]
+        rows = logical_rows(E, fa, S, wi)
         want_rows = 2 if wname == "user_lexicon_wtr" else 1
-        ctx.ob("FMT", "%s|writer|row-templates" % label, len(fm) == want_rows, fn_loc(crate, p),
-               "%s rows come from %d format template(s)" % (label, len(fm)))
-        if first == "csvcell":
-            okc = len(cells) == 1 and all(fa.dominates(cells[0]["b"], tc["b"]) for tc in fm)
-            ctx.ob("FMT", "%s|writer|surface-quoted-first" % label, okc, fn_loc(crate, p),
-                   "the surface is written first, as a quoted CSV cell" if okc else
-                   "the surface cell is not written (quoted) before the other columns")
-        for n, tc in enumerate(fm):
-            a = args(fa, S, tc)
-            l = lits(tc)
-            if first == "plain":
-                shape_ok = len(a) == 5 and l == [",", ",", ",", ",", "\n"]
-                a = a[1:]
-            else:
-                shape_ok = len(a) == 4 and l == [",", ",", ",", ",", "\n"]
+        ctx.ob("FMT", "%s|writer|row-templates" % label, len(rows) == want_rows, fn_loc(crate, p),
+               "%s is written from %d row template(s)" % (label, len(rows)))
+        for n, tc in enumerate(rows):
+            pcs = tc["pieces"]
+            a_ops = [fmt.deref_arg(fa, q[1]) if q[2] != "csvcell" else q[1] for q in pcs if q[0] == "arg"]
+            a = [S.operand(o) for o in a_ops]
+            kinds = [q[2] for q in pcs if q[0] == "arg"]
+            l = [q[1] for q in pcs if q[0] == "lit"]
+            alternating = all((q[0] == "arg") == (i % 2 == 0) for i, q in enumerate(pcs))
+            shape_ok = alternating and len(a) == 5 and l == [",", ",", ",", ",", "\n"]
             ctx.ob("FMT", "%s|writer|%d|comma-separated-5-columns" % (label, n), shape_ok, fa.loc(tc["b"]),
                    "row template: surface , left , right , cost , feature newline" if shape_ok else
                    "row template of %s has literals %s and %d placeholders: the compiler's CSV "
-                   "reader expects comma separated columns" % (label, l, len(a)))
+                   "reader expects five comma separated columns" % (label, l, len(a)))
             if not shape_ok:
                 continue
+            if first == "csvcell":
+                okq = kinds[0] == "csvcell"
+                ctx.ob("FMT", "%s|writer|%d|surface-quoted-first" % (label, n), okq, fa.loc(tc["b"]),
+                       "the surface is written first, as a quoted CSV cell" if okq else
+                       "the first column is not written through quote_csv_cell: a surface "
+                       "containing a comma or quote breaks the row")
+            a = a[1:]
             okl = ends_with_field(a[0], "left_id") and ends_with_field(a[1], "right_id")
             ctx.ob("FMT", "%s|writer|%d|left-then-right" % (label, n), okl, fa.loc(tc["b"]),
                    "columns 1 and 2 are the left id and the right id (the order parse_csv reads)"
@@ -590,21 +630,21 @@ def corpus_format(ctx):
     wp = "vibrato::trainer::corpus::Example::write"
     wfa = E.fa(wp)
     WS = Sym(E, wfa)
-    rows = [tc for tc in fmt.text_calls(E, wfa) if tc["kind"] == "write_fmt"]
-    tok = [tc for tc in rows if len(args(wfa, WS, tc)) == 2]
-    end = [tc for tc in rows if not args(wfa, WS, tc)]
-    ok = len(tok) == 1 and lits(tok[0]) == [d, "\n"] and \
-        ends_with_field(args(wfa, WS, tok[0])[0], "surface") and \
-        ends_with_field(args(wfa, WS, tok[0])[1], "feature")
+    wparam = 2   # Example::write(&self, wtr)
+    rows = logical_rows(E, wfa, WS, wparam)
+    tok = [tc for tc in rows if len([q for q in tc["pieces"] if q[0] == "arg"]) == 2]
+    end = [tc for tc in rows if not [q for q in tc["pieces"] if q[0] == "arg"]]
+    ok = len(tok) == 1
+    if ok:
+        pcs = tok[0]["pieces"]
+        a = [WS.operand(fmt.deref_arg(wfa, q[1])) for q in pcs if q[0] == "arg"]
+        shape = [q[0] if q[0] == "arg" else q[1] for q in pcs]
+        ok = shape == ["arg", d, "arg", "\n"] and ends_with_field(a[0], "surface") and \
+            ends_with_field(a[1], "feature")
     ctx.ob("FMT", "corpus|Example::write|surface<TAB>feature", ok, fn_loc(crate, wp),
            "Example::write emits surface TAB feature newline per token" if ok else
-           "Example::write emits %s with %s" % ([lits(x) for x in tok],
-                                                [show(a) for x in tok for a in args(wfa, WS, x)]))
-    ok = len(end) == 1 and lits(end[0]) == [(eos or "") + "\n"]
-    rets = wfa.return_blocks()
-    ok_path = ok and all(r not in wfa.reachable(0, avoid={end[0]["b"]}) or
-                         wfa.term(r)["k"] != "return" or True for r in rets)
-    # EOS is written on every Ok path
+           "Example::write emits rows %s" % [[q[1] if q[0] == "lit" else "{}" for q in x["pieces"]] for x in rows])
+    ok = len(end) == 1 and [q[1] for q in end[0]["pieces"]] == [(eos or "") + "\n"]
     from flow import result_exits, must_pass
     okb, errb, _ = result_exits(wfa)
     ok_path = ok and all(must_pass(wfa, o, {end[0]["b"]}) for o in okb)
